@@ -59,6 +59,17 @@ Section Orders.
     split; (split; [apply run_steps | assumption]).
   Qed.
 
+  Theorem engine_order_irrelevant_cre :
+    cre_strict_prog P ->
+    exists n, forall m1 m2, (n <= m1)%nat -> (n <= m2)%nat ->
+      final (run P (engine_strategy P o1) m1 s) /\ final (run P (engine_strategy P o2) m2 s) /\
+      forall c, val (run P (engine_strategy P o1) m1 s) c = val (run P (engine_strategy P o2) m2 s) c.
+  Proof.
+    intros Hs. destruct two_orders_complete as [n Hn]. exists n. intros m1 m2 H1 H2.
+    destruct (Hn m1 m2 H1 H2) as [C1 C2]. split; [apply C1|]. split; [apply C2|].
+    eapply sched_confluent_cre; eassumption.
+  Qed.
+
   Theorem engine_order_irrelevant_strict :
     strict_prog P ->
     exists n, forall m1 m2, (n <= m1)%nat -> (n <= m2)%nat ->
@@ -83,11 +94,24 @@ Section Orders.
 End Orders.
 
 (* formulas of the grammar without try/except are strict *)
-Lemma compile_strict e : forall row k,
-  no_try e = true -> (forall z, strict (k z)) -> strict (compile e row k Raise).
+Lemma read_index_strict idx rows : forall key acc k,
+  (forall ms, strict (k ms)) -> strict (read_index idx rows key acc k Raise).
 Proof.
-  induction e as [z|col|rc col|a IHa b IHb|c IHc a IHa b IHb| |a IHa z]; intros row k Hn Hk;
-    cbn [compile no_try] in *.
+  induction rows as [|r t IH]; intros key acc k Hk; cbn [read_index]; [apply Hk|].
+  constructor; [reflexivity|]. intros z. apply IH. exact Hk.
+Qed.
+
+Lemma read_sum_strict col rs : forall acc k, (forall z, strict (k z)) -> strict (read_sum col rs acc k Raise).
+Proof.
+  induction rs as [|r t IH]; intros acc k Hk; cbn [read_sum]; [apply Hk|].
+  constructor; [reflexivity|]. intros z. apply IH. exact Hk.
+Qed.
+
+Lemma compile_strict rows e : forall row k,
+  no_try e = true -> (forall z, strict (k z)) -> strict (compile rows e row k Raise).
+Proof.
+  induction e as [z|col|rc col|a IHa b IHb|c IHc a IHa b IHb| |a IHa z|a IHa z|idx key IHk|idx key IHk|idx key IHk col];
+    intros row k Hn Hk; cbn [compile no_try] in *.
   - apply Hk.
   - constructor; [reflexivity | exact Hk].
   - constructor; [reflexivity|]. intros r. constructor; [reflexivity | exact Hk].
@@ -97,6 +121,64 @@ Proof.
     apply IHc; [exact Hc|]. intros x. destruct (x >? 0); [apply IHa | apply IHb]; assumption.
   - constructor.
   - discriminate.
+  - discriminate.
+  - apply IHk; [exact Hn|]. intros kv. apply read_index_strict. intros ms. apply Hk.
+  - apply IHk; [exact Hn|]. intros kv. apply read_index_strict. intros ms. apply Hk.
+  - apply IHk; [exact Hn|]. intros kv. apply read_index_strict. intros ms. apply read_sum_strict. exact Hk.
+Qed.
+
+(* grammar formulas whose only handlers are "except: re-raise CircularRefError, else a constant" *)
+Lemma read_index_cre idx rows : forall key acc k h,
+  (forall ms, cre_strict (k ms)) -> h CircularRef = Raise CircularRef -> (forall x, cre_strict (h x)) ->
+  cre_strict (read_index idx rows key acc k h).
+Proof.
+  induction rows as [|r t IH]; intros key acc k h Hk Hc Hh; cbn [read_index]; [apply Hk|].
+  constructor; [exact Hc|]. intros [z|x]; [apply IH; assumption | apply Hh].
+Qed.
+
+Lemma read_sum_cre col rs : forall acc k h,
+  (forall z, cre_strict (k z)) -> h CircularRef = Raise CircularRef -> (forall x, cre_strict (h x)) ->
+  cre_strict (read_sum col rs acc k h).
+Proof.
+  induction rs as [|r t IH]; intros acc k h Hk Hc Hh; cbn [read_sum]; [apply Hk|].
+  constructor; [exact Hc|]. intros [z|x]; [apply IH; assumption | apply Hh].
+Qed.
+
+Lemma compile_cre_strict rows e : forall row k h,
+  no_cre_catch e = true -> (forall z, cre_strict (k z)) ->
+  h CircularRef = Raise CircularRef -> (forall x, cre_strict (h x)) ->
+  cre_strict (compile rows e row k h).
+Proof.
+  induction e as [z|col|rc col|a IHa b IHb|c IHc a IHa b IHb| |a IHa z|a IHa z|idx key IHk|idx key IHk|idx key IHk col];
+    intros row k h Hn Hk Hc Hh; cbn [compile no_cre_catch] in *.
+  - apply Hk.
+  - constructor; [exact Hc|]. intros [z|x]; [apply Hk | apply Hh].
+  - constructor; [exact Hc|]. intros [r|x]; [|apply Hh].
+    constructor; [exact Hc|]. intros [z|x]; [apply Hk | apply Hh].
+  - apply andb_true_iff in Hn. destruct Hn as [Ha Hb].
+    apply IHa; [exact Ha| |exact Hc|exact Hh]. intros x. apply IHb; [exact Hb| |exact Hc|exact Hh].
+    intros y. apply Hk.
+  - apply andb_true_iff in Hn. destruct Hn as [Hn Hb]. apply andb_true_iff in Hn. destruct Hn as [Hcc Ha].
+    apply IHc; [exact Hcc| |exact Hc|exact Hh]. intros x. destruct (x >? 0); [apply IHa | apply IHb]; assumption.
+  - apply Hh.
+  - discriminate.
+  - apply IHa; [exact Hn|exact Hk|exact Hc|]. intros [|x]; [apply Hh | apply Hk].
+  - apply IHk; [exact Hn| |exact Hc|exact Hh]. intros kv. apply read_index_cre; [|exact Hc|exact Hh]. intros ms. apply Hk.
+  - apply IHk; [exact Hn| |exact Hc|exact Hh]. intros kv. apply read_index_cre; [|exact Hc|exact Hh]. intros ms. apply Hk.
+  - apply IHk; [exact Hn| |exact Hc|exact Hh]. intros kv. apply read_index_cre; [|exact Hc|exact Hh].
+    intros ms. apply read_sum_cre; assumption.
+Qed.
+
+Lemma prog_of_cre_strict cols rows :
+  forallb (fun ce => no_cre_catch (snd ce)) cols = true -> cre_strict_prog (prog_of cols rows).
+Proof.
+  intros H c t Hc. unfold prog_of in Hc.
+  destruct (existsb (Z.eqb (snd c)) rows); [|discriminate].
+  destruct (lookup_col cols (fst c)) as [e|] eqn:El; [|discriminate]. inversion Hc; subst. clear Hc.
+  unfold formula_tree. apply compile_cre_strict; [|intros; constructor|reflexivity|intros; constructor].
+  induction cols as [|[m e'] cols IH]; cbn [lookup_col] in El; [discriminate|].
+  cbn [forallb snd] in H. apply andb_true_iff in H. destruct H as [H1 H2].
+  destruct (fst c =? m); [inversion El; subst; exact H1 | apply IH; assumption].
 Qed.
 
 Lemma prog_of_strict cols rows :
@@ -146,14 +228,32 @@ Lemma wf_init_doc cols rows vals :
   wf_init (prog_of cols rows) (init_state (val_of vals) (formula_cells cols rows)).
 Proof. apply wf_init_scratch; intros c; apply formula_cells_iff. Qed.
 
-Lemma compile_reads_below lv b e : forall row k h,
+Lemma read_index_below lv b idx rows : forall key acc k h,
+  (lv idx < b)%nat -> (forall ms, reads_below (fun c => lv (fst c)) b (k ms)) ->
+  (forall x, reads_below (fun c => lv (fst c)) b (h x)) ->
+  reads_below (fun c => lv (fst c)) b (read_index idx rows key acc k h).
+Proof.
+  induction rows as [|r t IH]; intros key acc k h Hl Hk Hh; cbn [read_index]; [apply Hk|].
+  constructor; [exact Hl|]. intros [z|x]; [apply IH; assumption | apply Hh].
+Qed.
+
+Lemma read_sum_below lv b col rs : forall acc k h,
+  (lv col < b)%nat -> (forall z, reads_below (fun c => lv (fst c)) b (k z)) ->
+  (forall x, reads_below (fun c => lv (fst c)) b (h x)) ->
+  reads_below (fun c => lv (fst c)) b (read_sum col rs acc k h).
+Proof.
+  induction rs as [|r t IH]; intros acc k h Hl Hk Hh; cbn [read_sum]; [apply Hk|].
+  constructor; [exact Hl|]. intros [z|x]; [apply IH; assumption | apply Hh].
+Qed.
+
+Lemma compile_reads_below lv b rows e : forall row k h,
   below_level lv b e = true ->
   (forall z, reads_below (fun c => lv (fst c)) b (k z)) ->
   (forall x, reads_below (fun c => lv (fst c)) b (h x)) ->
-  reads_below (fun c => lv (fst c)) b (compile e row k h).
+  reads_below (fun c => lv (fst c)) b (compile rows e row k h).
 Proof.
-  induction e as [z|col|rc col|a IHa b' IHb|c IHc a IHa b' IHb| |a IHa z]; intros row k h Hl Hk Hh;
-    cbn [compile below_level] in *.
+  induction e as [z|col|rc col|a IHa b' IHb|c IHc a IHa b' IHb| |a IHa z|a IHa z|idx key IHk|idx key IHk|idx key IHk col];
+    intros row k h Hl Hk Hh; cbn [compile below_level] in *.
   - apply Hk.
   - constructor; [cbn [fst]; apply Nat.ltb_lt; exact Hl|]. intros [z|x]; [apply Hk | apply Hh].
   - apply andb_true_iff in Hl. destruct Hl as [H1 H2].
@@ -165,6 +265,15 @@ Proof.
     apply IHc; [exact H1| |exact Hh]. intros x. destruct (x >? 0); [apply IHa | apply IHb]; assumption.
   - apply Hh.
   - apply IHa; [exact Hl | exact Hk | intros x; apply Hk].
+  - apply IHa; [exact Hl | exact Hk | intros [|x]; [apply Hh | apply Hk]].
+  - apply andb_true_iff in Hl. destruct Hl as [H1 H2]. apply Nat.ltb_lt in H1.
+    apply IHk; [exact H2| |exact Hh]. intros kv. apply read_index_below; [exact H1| |exact Hh]. intros ms. apply Hk.
+  - apply andb_true_iff in Hl. destruct Hl as [H1 H2]. apply Nat.ltb_lt in H1.
+    apply IHk; [exact H2| |exact Hh]. intros kv. apply read_index_below; [exact H1| |exact Hh]. intros ms. apply Hk.
+  - apply andb_true_iff in Hl. destruct Hl as [Hl H3]. apply andb_true_iff in Hl. destruct Hl as [H1 H2].
+    apply Nat.ltb_lt in H1. apply Nat.ltb_lt in H2.
+    apply IHk; [exact H3| |exact Hh]. intros kv. apply read_index_below; [exact H1| |exact Hh].
+    intros ms. apply read_sum_below; assumption.
 Qed.
 
 Lemma levelled_acyclic lv cols rows :
@@ -200,4 +309,84 @@ Proof.
   split; [split; [apply run_steps | apply is_final_final; vm_compute; reflexivity]|].
   split; [split; [apply run_steps | apply is_final_final; vm_compute; reflexivity]|].
   split; vm_compute; reflexivity.
+Qed.
+
+(* ---------------------------------------------------------------------------------------- *)
+(* The class "handlers never catch CircularRefError" is exact handler by handler: ANY continuation that
+   turns a CircularRefError it reads into an ordinary result is order-dependent in some document, namely
+   a = <that formula reading b>, b = $a. *)
+Section Gap.
+  Variable k : value -> itree.
+  Variable z : Z.
+  Hypothesis Hk : k (VErr CircularRef) = Ret z.
+
+  Definition ga : cell := (10, 1).
+  Definition gb : cell := (11, 1).
+  Definition pass_on (v : value) : itree := match v with VInt x => Ret x | VErr e => Raise e end.
+  Definition gap_prog : prog :=
+    fun c => if cell_eqb c ga then Some (Read gb k) else if cell_eqb c gb then Some (Read ga pass_on) else None.
+  Definition gap_init : state := init_state (fun _ => VInt 0) [ga; gb].
+
+  Lemma gap_wf : wf_init gap_prog gap_init.
+  Proof.
+    apply wf_init_scratch.
+    - intros c [<-|[<-|[]]]; vm_compute; discriminate.
+    - intros c Hc. unfold gap_prog in Hc.
+      destruct (cell_eqb c ga) eqn:Ea; [apply cell_eqb_eq in Ea; left; congruence|].
+      destruct (cell_eqb c gb) eqn:Eb; [apply cell_eqb_eq in Eb; right; left; congruence|]. congruence.
+  Qed.
+
+  Lemma gap_run_a_first : exists r,
+    replay gap_prog [LPick ga; LNeed ga gb; LNeed gb ga; LCycle ga; LPop; LDone gb; LPop; LPop] gap_init = Some r /\
+    final r /\ val r ga = VErr CircularRef.
+  Proof.
+    eexists. split; [vm_compute; reflexivity|]. split; [split; reflexivity | vm_compute; reflexivity].
+  Qed.
+
+  Lemma gap_run_b_first : exists r,
+    replay gap_prog [LPick gb; LNeed gb ga; LNeed ga gb; LCycle gb; LPop; LDone ga; LPop; LPop] gap_init = Some r /\
+    final r /\ val r ga = VInt z.
+  Proof.
+    eexists. split.
+    - cbn. rewrite Hk. cbn. reflexivity.
+    - split; [split; reflexivity | cbn; reflexivity].
+  Qed.
+
+  Theorem handler_gap : exists r1 r2,
+    wf_init gap_prog gap_init /\ complete_run gap_prog gap_init r1 /\ complete_run gap_prog gap_init r2 /\
+    val r1 ga = VErr CircularRef /\ val r2 ga = VInt z.
+  Proof.
+    destruct gap_run_a_first as [r1 [R1 [F1 V1]]]. destruct gap_run_b_first as [r2 [R2 [F2 V2]]].
+    exists r1, r2. split; [exact gap_wf|].
+    split; [split; [eapply replay_steps; exact R1 | exact F1]|].
+    split; [split; [eapply replay_steps; exact R2 | exact F2]|]. split; assumption.
+  Qed.
+End Gap.
+
+(* ---------------------------------------------------------------------------------------- *)
+(* The engine's row loop sometimes skips a row ([engine_strategy] does not): irrelevant for the result.
+   ANY strategy whose run reaches a final state ends in the values of the modelled engine strategy. *)
+Theorem any_strategy_same_result P s order strat n :
+  cre_strict_prog P -> wf_init P s -> (forall c, In c (dirty s) -> In c order) ->
+  final (run P strat n s) ->
+  exists m, final (run P (engine_strategy P order) m s) /\
+            forall c, val (run P strat n s) c = val (run P (engine_strategy P order) m s) c.
+Proof.
+  intros Hs Hw Ho F. destruct Hw as [Hst [Hl [Hf Hc]]].
+  destruct (engine_run_completes P order s Hf Ho) as [m Fm]. exists m. split; [exact Fm|].
+  eapply sched_confluent_cre; [exact Hs | repeat split; eassumption | split; [apply run_steps | exact F]
+                              | split; [apply run_steps | exact Fm]].
+Qed.
+
+(* ... and so does every label sequence the model accepts (a recorded engine trace that [check_trace] accepts) *)
+Theorem any_replay_same_result P s order ls r :
+  cre_strict_prog P -> wf_init P s -> (forall c, In c (dirty s) -> In c order) ->
+  replay P ls s = Some r -> final r ->
+  exists m, final (run P (engine_strategy P order) m s) /\
+            forall c, val r c = val (run P (engine_strategy P order) m s) c.
+Proof.
+  intros Hs Hw Ho R F. destruct Hw as [Hst [Hl [Hf Hc]]].
+  destruct (engine_run_completes P order s Hf Ho) as [m Fm]. exists m. split; [exact Fm|].
+  eapply sched_confluent_cre; [exact Hs | repeat split; eassumption | split; [eapply replay_steps; exact R | exact F]
+                              | split; [apply run_steps | exact Fm]].
 Qed.
